@@ -143,6 +143,7 @@ def envelope_oracle(
     ev: Dict[str, Any],
     api: Optional[Dict[str, Any]],
     twin: Optional[Dict[str, Any]],
+    baseline: Optional[Dict[str, Any]] = None,
 ) -> List[Dict[str, Any]]:
     """C18, JSON envelope sentence (DESIGN §5.1).  `api` = full reference of ("single", c);
     `twin` = event of the same run in the other --json mode."""
@@ -167,6 +168,25 @@ def envelope_oracle(
     if error_made and env["error"] is None:
         out.append(mm("error_lost", "error reported: an exception reached main()", {"error": None, "success": env["success"]}))
     fault = op.get("fault")
+    if fault and ev.get("fault_fired") and not error_made and env["error"] is None and baseline is not None:
+        # The injected TealerException was caught before main().  That is only "no error occurred"
+        # if the run still delivers what the fault-free run delivers; a run that claims success with
+        # results missing has lost an error.
+        benv, _ = envelope_of(baseline["op"], baseline["ev"])
+        if benv is not None and benv.get("error") is None and benv.get("result") != env["result"]:
+            out.append(
+                mm(
+                    "error_lost",
+                    "error reported, or the complete fault-free result",
+                    {
+                        "success": env["success"],
+                        "error": None,
+                        "caught_in": ev.get("fault_caught_in"),
+                        "result_checks": [r.get("check") for r in env["result"]],
+                        "fault_free_checks": [r.get("check") for r in benv["result"]],
+                    },
+                )
+            )
     if not error_made and not (fault and ev.get("fault_fired")) and api is not None and api.get("outcome") == "ok" and env["error"] is not None:
         out.append(mm("spurious_error", None, env["error"]))
     for r in env["result"]:
